@@ -19,9 +19,19 @@
    can reach its setpgid before the first stage has created the group, the call fails and
    the stage stays in the shell's group - found on the real binary by a C07 session and
    reproduced on demand with the schedule point child0_pre_setpgid.
-   Mode "both" is the repaired code: the shell makes the same call right after each fork. *)
+   Mode "both" is the repaired code: the shell makes the same call right after each fork.
+
+   The terminal: TtyMode "parent-only" is core.rs as pinned - only the shell calls tcsetpgrp, so the
+   first stage's program can start (and read the terminal: SIGTTIN, the job is stopped) before the
+   terminal is its group's; found by a C16 prompt run (status 149) and reproduced on demand with the
+   schedule point parent_after_fork0.  TtyMode "both" is the repaired code: the first stage gives the
+   terminal to its own group before it runs its program (ChildTakeTerminal).  SIGCHLD is blocked
+   while a command line runs (main.rs), so a stage that has ended stays a zombie - its group goes on
+   existing - until the shell waits for the job after the launch (ChildGone); the shell then takes
+   the terminal back if its own tcsetpgrp call had succeeded (run_pipeline's term_given).        *)
 EXTENDS Naturals, FiniteSets
-CONSTANTS N, Mode        \* number of stages; "child-only" | "both"
+CONSTANTS N, Mode,       \* number of stages; "child-only" | "both"
+          TtyMode        \* "parent-only" | "both"
 Stages == 1..N
 ShellGroup == 0
 Leader == 1              \* the group id of the job is the pid of stage 1 (pids are the stage numbers)
@@ -30,37 +40,57 @@ VARIABLES forked,        \* number of stages forked so far
           group,         \* stage -> group it is in
           cpc,           \* stage -> "unborn" | "start" | "grouped" | "execd"
           tty,           \* foreground group of the terminal
-          gave           \* the shell has called tcsetpgrp
-vars == <<forked, pset, group, cpc, tty, gave>>
+          gave,          \* the shell has called tcsetpgrp
+          tgiven,        \* run_pipeline's term_given: the shell will take the terminal back after the job
+          finished       \* the shell has waited for the job and is about to show the prompt
+vars == <<forked, pset, group, cpc, tty, gave, tgiven, finished>>
 
-GroupExists(g) == \E s \in Stages : cpc[s] # "unborn" /\ group[s] = g
+GroupExists(g) == \E s \in Stages : cpc[s] \notin {"unborn", "gone"} /\ group[s] = g
 Setpgid(s, g) == IF g = s \/ GroupExists(g) THEN [group EXCEPT ![s] = g] ELSE group    \* EPERM: unchanged
 
 Init == forked = 0 /\ pset = {} /\ group = [s \in Stages |-> ShellGroup] /\ cpc = [s \in Stages |-> "unborn"]
-        /\ tty = ShellGroup /\ gave = FALSE
+        /\ tty = ShellGroup /\ gave = FALSE /\ tgiven = FALSE /\ finished = FALSE
 \* the shell's steps are sequential: fork i, (setpgid i), (give terminal after stage 1), fork i+1, ...
 ShellReady == forked = Cardinality(pset) \/ Mode = "child-only"
 Fork == /\ forked < N /\ (Mode = "both" => forked \in {Cardinality(pset)})
         /\ (forked = 1 => gave)
         /\ forked' = forked + 1 /\ cpc' = [cpc EXCEPT ![forked + 1] = "start"]
-        /\ UNCHANGED <<pset, group, tty, gave>>
+        /\ UNCHANGED <<pset, group, tty, gave, tgiven, finished>>
 ParentSetpgid == /\ Mode = "both" /\ forked > Cardinality(pset)
                  /\ group' = Setpgid(forked, Leader) /\ pset' = pset \cup {forked}
-                 /\ UNCHANGED <<forked, cpc, tty, gave>>
+                 /\ UNCHANGED <<forked, cpc, tty, gave, tgiven, finished>>
 GiveTerminal == /\ forked = 1 /\ ~gave /\ (Mode = "both" => 1 \in pset)
                 /\ gave' = TRUE /\ tty' = IF GroupExists(Leader) THEN Leader ELSE tty
-                /\ UNCHANGED <<forked, pset, group, cpc>>
+                /\ tgiven' = GroupExists(Leader)
+                /\ UNCHANGED <<forked, pset, group, cpc, finished>>
 ChildSetpgid(s) == /\ cpc[s] = "start"
-                   /\ group' = Setpgid(s, Leader) /\ cpc' = [cpc EXCEPT ![s] = "grouped"]
-                   /\ UNCHANGED <<forked, pset, tty, gave>>
+                   /\ group' = Setpgid(s, Leader)
+                   /\ cpc' = [cpc EXCEPT ![s] = IF s = 1 /\ TtyMode = "both" THEN "grouped1" ELSE "grouped"]
+                   /\ UNCHANGED <<forked, pset, tty, gave, tgiven, finished>>
+\* the first stage: tcsetpgrp(own group) right after its setpgid (the group exists: it is in it)
+ChildTakeTerminal == /\ cpc[1] = "grouped1" /\ tty' = group[1] /\ cpc' = [cpc EXCEPT ![1] = "grouped"]
+                     /\ UNCHANGED <<forked, pset, group, gave, tgiven, finished>>
 ChildExec(s) == /\ cpc[s] = "grouped" /\ cpc' = [cpc EXCEPT ![s] = "execd"]
-                /\ UNCHANGED <<forked, pset, group, tty, gave>>
-Next == Fork \/ ParentSetpgid \/ GiveTerminal \/ (\E s \in Stages : ChildSetpgid(s) \/ ChildExec(s))
+                /\ UNCHANGED <<forked, pset, group, tty, gave, tgiven, finished>>
+\* the program has ended and the shell's wait reaps it - only after the launch: until then it is a zombie and its group exists
+Launched == forked = N /\ gave /\ (Mode = "both" => Cardinality(pset) = N)
+ChildGone(s) == /\ Launched /\ cpc[s] = "execd" /\ cpc' = [cpc EXCEPT ![s] = "gone"]
+                /\ UNCHANGED <<forked, pset, group, tty, gave, tgiven, finished>>
+\* every stage has been forked and has ended: the shell takes the terminal back (execute.rs) and shows the prompt
+ShellFinish == /\ ~finished /\ Launched /\ \A s \in Stages : cpc[s] = "gone"
+               /\ finished' = TRUE /\ tty' = IF tgiven THEN ShellGroup ELSE tty
+               /\ UNCHANGED <<forked, pset, group, cpc, gave, tgiven>>
+Next == Fork \/ ParentSetpgid \/ GiveTerminal \/ ChildTakeTerminal \/ ShellFinish
+        \/ (\E s \in Stages : ChildSetpgid(s) \/ ChildExec(s) \/ ChildGone(s))
 Spec == Init /\ [][Next]_vars
 
 \* C07: once a stage runs its program it is in the job's own group, led by the first stage
 OwnGroup == \A s \in Stages : cpc[s] = "execd" => group[s] = Leader
 \* C07: once the shell has handed over the terminal, the job owns it
-TerminalGiven == gave => tty = Leader
+TerminalGiven == gave /\ ~finished /\ GroupExists(Leader) => tty = Leader
+\* C07: no program of the foreground job runs while the terminal is not its group's
+RunsOwningTerminal == \A s \in Stages : cpc[s] = "execd" /\ group[s] = Leader => tty = Leader
+\* C07: the terminal is the shell's again whenever the prompt returns
+PromptOwnsTerminal == finished => tty = ShellGroup
 AllStarted == \A s \in Stages : cpc[s] = "execd"
 =============================================================================
